@@ -205,6 +205,10 @@ pub fn run(report: &Report, thorough: bool) -> Evidence {
                 o.ansi = bits & 8 != 0;
                 o.smart = bits & 16 != 0;
                 o.kar = bits & 32 != 0;
+                // every second of these contexts reaches its options (old reph included) through update-engine from a context
+                // created with every option inverted; every fourth is built on a used Config object
+                o.via_update = bits % 2 == 1;
+                o.churn = bits % 4 == 2;
                 let mut ctx = Ctx::new(&o).expect("context");
                 ctx.with_pre = false;
                 let reph = &alphabet[0];
